@@ -605,15 +605,14 @@ func (dc *ClientDnsConnection) AutodetectEncodingDowntream() {
 
 	/* If 128 works, then TXT may give us Raw as well */
 	if activeEncoder == enc.Base128Encoding && *dc.Serializer.Upstream.QueryType == util.QueryTypeTxt {
-		if err := dc.TestDownstreamEncoder(enc.RawEncoding); err != nil {
+		if err := dc.TestDownstreamEncoder(enc.RawEncoding); err == nil {
 			log.Infof("Using downstream encoder: %v", enc.RawEncoding)
 			dc.Serializer.Downstream.Encoder = enc.RawEncoding
 			return
 		}
-	} else {
-		log.Infof("Using downstream encoder: %v", activeEncoder)
-		dc.Serializer.Downstream.Encoder = activeEncoder
 	}
+	log.Infof("Using downstream encoder: %v", activeEncoder)
+	dc.Serializer.Downstream.Encoder = activeEncoder
 }
 
 func (dc *ClientDnsConnection) SendSetEncodingDownstream(timeout time.Duration) (*commands.SetOptionsResponse, error) {
